@@ -18,8 +18,8 @@ def load_corpus(prop):
     return out
 
 
-def gen_cases(seed, n_rts, n_vals, depth=3, strict=False):
-    g = gen.Gen(seed)
+def gen_cases(seed, n_rts, n_vals, depth=3, strict=False, schemaable=0.0):
+    g = gen.Gen(seed, schemaable)
     cases = []
     for i in range(n_rts):
         env, rt = g.env_and_rt(depth)
